@@ -1,6 +1,7 @@
 import Aldy.Model.Shape
 import Aldy.Model.Wire
 import Aldy.Model.Names
+import Aldy.Driver.Views
 
 /-! Driver op `c05`: evaluate a recorded `solutions()` trace against the Shape model. -/
 
@@ -63,29 +64,10 @@ def opC05 (j : Json) : Except String Json := do
 
 /-! Canonical JSON form of an encoded model (tie (a)). -/
 
-def kindJ : Kind → Json
-  | .bin => objJ [("k", strJ "B")]
-  | .cont lb ub => objJ [("k", strJ "C"), ("lb", optJ ratJ lb), ("ub", optJ ratJ ub)]
-
-def termsJ (ts : List (Rat × String)) : Json := listJ (fun t => listJ id [ratJ t.1, strJ t.2]) ts
-
-def conJ (c : LinCon String) : Json :=
-  objJ [("terms", termsJ c.terms), ("sense", strJ (match c.sense with | .le => "le" | .ge => "ge")), ("rhs", ratJ c.rhs)]
-
-def ilpJ (m : Ilp String) : Json :=
-  objJ [("vars", listJ (fun v => listJ id [strJ v.1, kindJ v.2]) m.vars),
-        ("cons", listJ conJ m.cons),
-        ("obj", termsJ m.obj)]
-
 def svarName : SVar String → String
   | .b v => v
   | .e i => s!"E_{i}"
   | .a i => s!"ABS_E_{i}"
-
-def mapIlp {V W : Type} (f : V → W) (m : Ilp V) : Ilp W where
-  vars := m.vars.map fun v => (f v.1, v.2)
-  cons := m.cons.map fun c => ⟨c.terms.map fun t => (t.1, f t.2), c.sense, c.rhs⟩
-  obj := m.obj.map fun t => (t.1, f t.2)
 
 /-- The encoded model of a shape, with the names the harness uses. -/
 def opShapeIlp (j : Json) : Except String Json := do
